@@ -479,13 +479,13 @@ def judge_decoding(ctx, cases, results, stats, which):
     into a long-lived destination reused by all cases of the same (type, protocol, target kind); the
     harness reports the latter two only when they differ from the fresh result, and they are judged
     against the same expectation ("decodes to an equal value" whatever the destination held before)."""
-    phase = "dec" if which == "spec" else "rt"
+    phase = "rt" if which == "real" else "dec"
     for c in cases:
         if not c["claimed"]:
             continue
         r = results[c["id"]]
         res = r["res"]
-        if which == "spec" and c["conv"] != "ok":
+        if which in ("spec", "spec2") and c["conv"] != "ok":
             continue
         if which == "real" and res["st"] not in ("ok", "null"):
             continue
@@ -500,7 +500,11 @@ def judge_decoding(ctx, cases, results, stats, which):
                     continue
                 dest = {"": "", "-prefilled": " (destination pre-filled with other content)",
                         "-reused": " (destination reused from the previous decodes)"}[suffix]
-                src = "Unmarshal(%s of %s) into %s%s" % ("reference encoding" if which == "spec" else "Marshal output " + (
+                stale = which == "spec2" and suffix != ""
+                if which == "spec2":
+                    suffix += "-shortudt"
+                src = "Unmarshal(%s of %s) into %s%s" % ("reference encoding" if which == "spec" else (
+                    "short reference encoding %s (trailing null UDT fields absent)" % hexs(c["spec2"]["b"])) if which == "spec2" else "Marshal output " + (
                     "null" if res["st"] == "null" else hexs(res["b"])), show(c), kshape(tg["K"]), dest)
                 if d["st"] == "harness":
                     raise vf.Inconclusive("harness could not build target %s: %s" % (kshape(tg["K"]), d.get("err")))
@@ -514,7 +518,7 @@ def judge_decoding(ctx, cases, results, stats, which):
                         ctx.violation(key_for(c, res, c["spec"], phase, "error" + suffix, tg["K"]), src + " fails: %s" % d.get("err"),
                                       dict(case=c, result=r, target=tg))
                 elif not same(c["T"], d["gv"], tg["exp"], tg["K"]):
-                    ctx.violation(key_for(c, res, c["spec"], phase, "value" + suffix, tg["K"]),
+                    ctx.violation("udt-short-value-stale-destination" if stale else key_for(c, res, c["spec"], phase, "value" + suffix, tg["K"]),
                                   src + " gives %s, expected %s" % (json.dumps(d["gv"])[:200], json.dumps(tg["exp"])[:200]),
                                   dict(case=c, result=r, target=tg))
                 else:
@@ -611,6 +615,7 @@ def run(ctx):
     st = Stats()
     judge_encoding(ctx, cases, results, st)
     judge_decoding(ctx, cases, results, st, "spec")
+    judge_decoding(ctx, cases, results, st, "spec2")
     judge_vectors(ctx, recs, verdicts, st, "C12")
     judge_later(ctx, cases, results, ctx.extra["laters"], st)
     judge_big(ctx, st, "C12")
